@@ -240,6 +240,31 @@ def apply (v : Vec) (op : Op) (fuel : Option Nat) : Vec × Res :=
   | .atKey key => (v, atKey v key)
   | .index key => (v, if key < v.size then index v key else .raised)
 
+/-- Operations whose argument is a reference to an element of the same vector
+(`v.emplace(pos, v[k])`, `v.push_back(v[k])`, …).  The C++ reads the referenced element
+into the new value *before* it moves anything (positional emplace constructs its temporary
+first), so such a call is the plain operation with the value the element has at call time.
+The harness only issues them for `k < size` (else it reports `raised` without calling). -/
+inductive AOp where
+  | plain (op : Op)
+  | emplaceAtAlias (pos k : Nat)
+  | pushBackAlias (k : Nat)
+  | emplaceBackAlias (k : Nat)
+  | insertAlias (k : Nat)
+  deriving DecidableEq, Repr
+
+def resolveL (l : List Slot) : AOp → Option Op
+  | .plain op => some op
+  | .emplaceAtAlias pos k => match l[k]? with | some (.val x) => some (.emplaceAt pos x) | _ => none
+  | .pushBackAlias k => match l[k]? with | some (.val x) => some (.pushBack x) | _ => none
+  | .emplaceBackAlias k => match l[k]? with | some (.val x) => some (.emplaceBack x) | _ => none
+  | .insertAlias k => match l[k]? with | some (.val x) => some (.insertC x) | _ => none
+
+def applyA (v : Vec) (a : AOp) (fuel : Option Nat) : Vec × Res :=
+  match resolveL (elems v) a with
+  | some op => apply v op fuel
+  | none => (v, .raised)
+
 /-- A pool of vector objects, some of which may not exist (yet). -/
 abbrev Pool := List (Option Vec)
 
@@ -255,6 +280,7 @@ inductive POp where
   | masg (i j : Nat)          -- pool[i] = std::move(pool[j])
   | lasg (i : Nat) (xs : List Nat)   -- pool[i] = { ... }
   | on (i : Nat) (op : Op)
+  | onA (i : Nat) (a : AOp)
   deriving DecidableEq, Repr
 
 /-- One step on the pool.  An operation that names a vector that does not exist does
@@ -307,6 +333,12 @@ def pstep (p : Pool) (op : POp) (fuel : Option Nat) : Pool × Res :=
     | none => (p, .raised)
     | some v =>
       let (v', r) := apply v op fuel
+      (p.set i (some v'), r)
+  | .onA i a =>
+    match getV p i with
+    | none => (p, .raised)
+    | some v =>
+      let (v', r) := applyA v a fuel
       (p.set i (some v'), r)
 
 /-- A history: operations with the throw point chosen for each. -/
